@@ -124,10 +124,22 @@ Exp_OverlapSp(e) ==
 X_OverlapSp(e) == Ok(e) /\ e.r = Exp_OverlapSp(e)
 
 \* ---- C01 ------------------------------------------------------------------
-PtMatch(p, id, h, v, ab) ==
+\* Rows in the real grid: how far from a row border a lattice point must lie for the model to decide its
+\* row depends on the REAL zoom rh: the stored latitude is cut by up to 2e-10 degrees, which is 22 % of
+\* a row at zoom 35 near the latitude limit (hence a quarter row there, as in SpatialGrid.LatDecided), but
+\* under 1.5 % up to zoom 31 (a sixteenth) and under 0.2 % up to zoom 28 (a sixty-fourth of a row).
+LatDecidedReal(p, h, rh) ==
+  \/ p[6] # 0
+  \/ /\ p[1] >= h + 2
+     /\ LET m == Pow2(p[1] - h)
+            r == p[3] % m
+            D == IF rh <= 28 THEN 64 ELSE IF rh <= 31 THEN 16 ELSE 4
+            g == CeilDiv(m, D)
+        IN  r >= g /\ r <= m - g
+PtMatch(p, id, h, v, ab, rh) ==
   /\ id[1] = h /\ id[4] = v
   /\ id[2] = PointX(p, h, ab)
-  /\ LatDecided(p, h)                       \* the driver only offers points whose row the model decides
+  /\ LatDecidedReal(p, h, rh)               \* the driver only offers points whose row the model decides
   /\ id[3] = PointY(p, h)
   /\ id[5] = PointF(p, v)
   /\ (ab => 0 <= id[2] /\ id[2] < Pow2(h) /\ 0 <= id[3] /\ id[3] < Pow2(h))
@@ -150,19 +162,19 @@ X_PointNudge(e) ==
   /\ LET id == e.r[1]  p == e.a.p IN
        /\ id[1] = e.a.h /\ id[4] = e.a.v
        /\ id[2] \in NudgeXs(p, e.a.du, e.a.edge, e.a.h, e.w.abs)
-       /\ LatDecided(p, e.a.h) /\ id[3] = PointY(p, e.a.h)
+       /\ LatDecidedReal(p, e.a.h, RealH(e, e.a.h)) /\ id[3] = PointY(p, e.a.h)
        /\ id[5] = NudgeF(p, e.a.da, e.a.v)
 Exp_PointsExt(e) == [i \in 1..Len(e.a.pts) |-> PointToVoxel(e.a.pts[i], e.a.h, e.a.v, e.w.abs)]
 X_PointsExt(e) ==
   IF ZoomOk(RealH(e, e.a.h)) /\ ZoomOk(RealV(e, e.a.v))
   THEN /\ Ok(e) /\ Len(e.r) = Len(e.a.pts)              \* length and order of the input list
-       /\ \A i \in 1..Len(e.r) : PtMatch(e.a.pts[i], e.r[i], e.a.h, e.a.v, e.w.abs)
+       /\ \A i \in 1..Len(e.r) : PtMatch(e.a.pts[i], e.r[i], e.a.h, e.a.v, e.w.abs, RealH(e, e.a.h))
   ELSE Err(e) /\ e.r = <<>>
 Exp_PointsSp(e) == [i \in 1..Len(e.a.pts) |-> ExtToSp(PointToVoxel(e.a.pts[i], e.a.z, e.a.z, e.w.abs))]
 X_PointsSp(e) ==
   IF ZoomOk(RealH(e, e.a.z))
   THEN /\ Ok(e) /\ Len(e.r) = Len(e.a.pts)
-       /\ \A i \in 1..Len(e.r) : PtMatch(e.a.pts[i], SpToExt(e.r[i]), e.a.z, e.a.z, e.w.abs)
+       /\ \A i \in 1..Len(e.r) : PtMatch(e.a.pts[i], SpToExt(e.r[i]), e.a.z, e.a.z, e.w.abs, RealH(e, e.a.z))
   ELSE Err(e) /\ e.r = <<>>
 
 \* arbitrary float64 points: the returned voxel contains the point according to the vertex query
@@ -620,6 +632,6 @@ MachineExplains(e, ws) ==
   /\ SetOfSeq(e.a.ws) = MachineNext(e, ws)
   /\ (e.op \in {"M.ChangeZoom", "M.Merge", "M.NLayer"} => e.a.n = Cardinality(MachineNext(e, ws)))  \* returned without duplicates
   /\ (e.op = "M.Overlap" => e.r = <<OverlapArr(ws, {e.a.b})>>)
-  /\ (e.op = "M.Lookup" => LatDecided(e.a.p, e.a.h))
+  /\ (e.op = "M.Lookup" => LatDecidedReal(e.a.p, e.a.h, RealH(e, e.a.h)))
   /\ (e.op = "M.Around" => e.a.c \in ws)
 =============================================================================
